@@ -13,6 +13,7 @@ import (
 	"encoding/json"
 	"fmt"
 	"io/ioutil"
+	"net"
 	"net/http"
 	"net/http/httptest"
 	"os"
@@ -39,17 +40,17 @@ const (
 )
 
 type Op struct {
-	K    string `json:"k"`              // Add Del DelAll B
+	K    string `json:"k"`              // Add Del DelAll B Stall Resume
 	ID   int    `json:"id,omitempty"`   // rule id 1..3, 0 = the reserved word deleteAll
 	S    int    `json:"s,omitempty"`    // stream 1..3
-	Mode string `json:"mode,omitempty"` // up | down | drop<k>
+	Mode string `json:"mode,omitempty"` // up | down | drop<k> | stall
 	U    int    `json:"u,omitempty"`    // number of the destination URL (one per rule version)
 }
 
 type Obs struct {
 	Rules   [][3]int `json:"rules"`   // id, stream, url - sorted by id
 	Clients [][2]int `json:"clients"` // id, url - sorted by id
-	Members []int    `json:"members"` // url of every client registered with the messages hub, sorted
+	Members []int    `json:"members"` // 10*url+stream of every client registered with the messages hub, sorted
 	Open    []int    `json:"open"`    // url, once per open connection, sorted
 	Recv    []int    `json:"recv"`    // urls the tagged broadcast of this op arrived at, sorted
 }
@@ -109,6 +110,31 @@ var reg = struct {
 }{m: map[string]*pathRec{}}
 
 var upgrader = websocket.Upgrader{CheckOrigin: func(r *http.Request) bool { return true }}
+
+// a destination in mode "stall" stays connected but does not read before stallUntil[path]
+var stallUntil = struct {
+	sync.Mutex
+	m map[string]time.Time
+}{m: map[string]time.Time{}}
+
+func setStall(path string, until time.Time) {
+	stallUntil.Lock()
+	stallUntil.m[path] = until
+	stallUntil.Unlock()
+}
+func stalledUntil(path string) time.Time {
+	stallUntil.Lock()
+	defer stallUntil.Unlock()
+	return stallUntil.m[path]
+}
+
+const (
+	stallFor     = 2600 * time.Millisecond // the destination does not read for this long
+	stallObserve = 1900 * time.Millisecond // connections are observed this long into the stall
+	floodFrames  = 96
+	floodSize    = 128 * 1024
+)
+
 var server *httptest.Server
 var histCounter int64
 
@@ -163,17 +189,31 @@ func handler(w http.ResponseWriter, r *http.Request) {
 	if err != nil {
 		return
 	}
+	tc, _ := conn.UnderlyingConn().(*net.TCPConn)
+	if mode == "stall" && tc != nil {
+		// a modest receive buffer (the default grows to tens of MB on loopback), so that the sender's
+		// writes block a few MB after we stop reading; not tiny, or draining takes seconds
+		tc.SetReadBuffer(64 * 1024)
+	}
 	cr := &connRec{open: true}
 	reg.Lock()
 	pr.conns = append(pr.conns, cr)
 	reg.Unlock()
 	n := 0
 	for {
+		if mode == "stall" {
+			for time.Now().Before(stalledUntil(r.URL.Path)) {
+				time.Sleep(5 * time.Millisecond)
+			}
+		}
 		_, data, err := conn.ReadMessage()
 		if err != nil {
 			break
 		}
 		n++
+		if k := strings.IndexByte(string(data[:minInt(len(data), 64)]), '|'); k >= 0 {
+			data = data[:k] // large frames carry their tag before a '|'
+		}
 		reg.Lock()
 		cr.msgs = append(cr.msgs, string(data))
 		if dropAfter > 0 && n >= dropAfter {
@@ -188,6 +228,13 @@ func handler(w http.ResponseWriter, r *http.Request) {
 	cr.open = false
 	reg.Unlock()
 	conn.Close()
+}
+
+func minInt(a, b int) int {
+	if a < b {
+		return a
+	}
+	return b
 }
 
 type snap struct {
@@ -332,15 +379,16 @@ func (r *runner) settle(newU, atLeast int) bool {
 	live := r.live()
 	for {
 		s := snapshot(r.hist)
-		ok := true
+		ok, soft := true, true
 		for u, mode := range live {
 			if mode != "down" && s.open[u] != 1 {
 				ok = false
 			}
-			// a rule just (re-)added must have made a connection of its own: one that was open
-			// before belongs to the client it replaced and is on its way out
+			// a rule just (re-)added normally makes a connection of its own: one that was open
+			// before belongs to the client it replaced and is on its way out. Waited for, but a
+			// hub that keeps the old connection is not wrong for that alone.
 			if mode != "down" && u == newU && s.total[u] < atLeast {
-				ok = false
+				soft = false
 			}
 		}
 		for u, n := range s.open {
@@ -348,14 +396,38 @@ func (r *runner) settle(newU, atLeast int) bool {
 				ok = false
 			}
 		}
-		if ok {
+		if ok && soft {
 			return true
 		}
 		if time.Now().After(deadline) {
-			return false
+			return ok
 		}
 		time.Sleep(200 * time.Microsecond)
 	}
+}
+
+// flood broadcasts large frames on the stream for a destination that has just stopped reading.
+func (r *runner) flood(s int, idx int) bool {
+	topic := streamTopic[s]
+	pad := make([]byte, floodSize)
+	for j := 0; j < floodFrames; j++ {
+		data := append([]byte(tag(r.hist, idx, j)+"|"), pad...)
+		msg := hub.Message{Data: data, Sender: hub.Client{Name: "probe", Topic: topic}, Sent: time.Now(), Type: websocket.BinaryMessage}
+		ok := r.do(func(d <-chan struct{}, t <-chan time.Time) bool {
+			select {
+			case r.mh.Broadcast <- msg:
+				return true
+			case <-d:
+			case <-t:
+			}
+			return false
+		})
+		if !ok {
+			return false
+		}
+		time.Sleep(2 * time.Millisecond)
+	}
+	return true
 }
 
 func tag(hist, idx, attempt int) string { return fmt.Sprintf("h%dp%da%d", hist, idx, attempt) }
@@ -458,7 +530,9 @@ func runHistory(c *Case) {
 	}
 
 	n := 0
-	for i, o := range c.Ops {
+	stallEnd := time.Now()
+	for i := 0; i < len(c.Ops); i++ {
+		o := c.Ops[i]
 		ok := true
 		newU, atLeast := -1, 0
 		switch o.K {
@@ -473,11 +547,28 @@ func runHistory(c *Case) {
 			ok = r.del("deleteAll")
 		case "B":
 			ok = r.probe(c, o.S, i)
+		case "Stall":
+			// the destination stops reading; large frames fill the socket buffers; the connections
+			// are observed well into the stall (no settling: nothing should change)
+			t0 := time.Now()
+			stallEnd = t0.Add(stallFor)
+			setStall(pathOf(hist, o.Mode, o.U), stallEnd)
+			ok = r.flood(o.S, i)
+			if d := time.Until(t0.Add(stallObserve)); d > 0 {
+				time.Sleep(d)
+			}
+		case "Resume":
+			if d := time.Until(stallEnd.Add(50 * time.Millisecond)); d > 0 {
+				time.Sleep(d)
+			}
 		}
 		if !ok || !r.barrier() {
 			break
 		}
-		settled := r.settle(newU, atLeast)
+		settled := true
+		if o.K != "Stall" {
+			settled = r.settle(newU, atLeast)
+		}
 		ob := Obs{Rules: [][3]int{}, Clients: [][2]int{}, Members: []int{}, Open: []int{}, Recv: []int{}}
 		for id, ru := range r.h.Rules {
 			u := 9999
@@ -498,13 +589,13 @@ func runHistory(c *Case) {
 			ob.Clients = append(ob.Clients, [2]int{idNumber(id), u})
 		}
 		sort.Slice(ob.Clients, func(a, b int) bool { return ob.Clients[a][0] < ob.Clients[b][0] })
-		for _, set := range []map[*hub.Client]bool{r.mh.Hub.Clients["data"], r.mh.Streams["stream/a"], r.mh.Streams["stream/b"]} {
+		for s, set := range []map[*hub.Client]bool{nil, r.mh.Streams["stream/a"], r.mh.Streams["stream/b"], r.mh.Hub.Clients["data"]} {
 			for m := range set {
-				u := 9999
+				u := 999
 				if hh, _, uu, ok := parseURL(m.Name); ok && hh == hist {
 					u = uu
 				}
-				ob.Members = append(ob.Members, u)
+				ob.Members = append(ob.Members, 10*u+s)
 			}
 		}
 		sort.Ints(ob.Members)
@@ -517,6 +608,19 @@ func runHistory(c *Case) {
 		sort.Ints(ob.Open)
 		c.Obs = append(c.Obs, ob)
 		n++
+		if !settled && c.Kind == "stall" && !c.Stalled {
+			// keep going to the delete / replace that ends the scenario (without the probes in
+			// between: each would wait 2 s again), so that "still open after delete" is seen too
+			rest := []Op{}
+			for _, p := range c.Ops[i+1:] {
+				if p.K != "B" {
+					rest = append(rest, p)
+				}
+			}
+			c.Ops = append(append([]Op{}, c.Ops[:i+1]...), rest...)
+			c.Stalled = true
+			continue
+		}
 		if !settled {
 			c.Stalled = true
 		}
@@ -537,7 +641,7 @@ func runHistory(c *Case) {
 	// attribute every message that arrived to the broadcast that carried it
 	sn := snapshot(hist)
 	for i := 0; i < n; i++ {
-		if c.Ops[i].K != "B" {
+		if c.Ops[i].K != "B" && c.Ops[i].K != "Stall" {
 			continue
 		}
 		prefix := fmt.Sprintf("h%dp%da", hist, i)
@@ -587,8 +691,10 @@ func (c Case) coq() string {
 			ops[i] = lib.App("Delete", lib.N(uint64(o.ID)))
 		case "DelAll":
 			ops[i] = "DeleteAll"
-		case "B":
+		case "B", "Stall":
 			ops[i] = lib.App("Bcast", lib.N(uint64(o.S)))
+		case "Resume":
+			ops[i] = lib.App("Bcast", lib.N(0)) // no operation of the hub: a broadcast nobody subscribes to
 		}
 	}
 	obs := make([]string, len(c.Obs))
@@ -637,10 +743,24 @@ func genHistory(r *lib.Rng, kind string) Case {
 			if kind == "malformed" && r.Chance(1, 3) {
 				id = 0
 			}
-			if cu, ok := curr[id]; ok && r.Chance(1, 6) {
+			otherStream := func(s0 int) int { return (s0-1+r.Range(1, nStreams-1))%nStreams + 1 }
+			cu, live := curr[id]
+			switch y := r.Intn(100); {
+			case live && y < 12:
 				// the same rule posted again
 				o = Op{K: "Add", ID: id, S: cu.s, Mode: cu.mode, U: cu.u}
-			} else {
+			case live && y < 40:
+				// replace: same destination, another stream
+				o = Op{K: "Add", ID: id, S: otherStream(cu.s), Mode: cu.mode, U: cu.u}
+			case live && y < 62:
+				// replace: another destination, same stream
+				o = Op{K: "Add", ID: id, S: cu.s, Mode: mode(), U: nextU}
+				nextU++
+			case live:
+				// replace: another destination and another stream
+				o = Op{K: "Add", ID: id, S: otherStream(cu.s), Mode: mode(), U: nextU}
+				nextU++
+			default:
 				o = Op{K: "Add", ID: id, S: r.Range(1, nStreams), Mode: mode(), U: nextU}
 				nextU++
 			}
@@ -671,6 +791,37 @@ func genHistory(r *lib.Rng, kind string) Case {
 	return c
 }
 
+// genStall: a rule whose destination stays connected but stops reading for 2.6 s while ~12 MB of
+// large frames are broadcast on its stream, then reads again; another rule on an up destination; the
+// history ends by deleting / replacing the stalled rule after it has resumed.
+func genStall(r *lib.Rng) Case {
+	c := Case{Kind: "stall"}
+	probes := func() {
+		for s := 1; s <= nStreams; s++ {
+			c.Ops = append(c.Ops, Op{K: "B", S: s})
+		}
+	}
+	s1 := r.Range(1, nStreams)
+	s2 := r.Range(1, nStreams)
+	c.Ops = append(c.Ops, Op{K: "Add", ID: 1, S: s1, Mode: "stall", U: 1})
+	probes()
+	c.Ops = append(c.Ops, Op{K: "Add", ID: 2, S: s2, Mode: "up", U: 2})
+	probes()
+	c.Ops = append(c.Ops, Op{K: "Stall", ID: 1, S: s1, Mode: "stall", U: 1})
+	c.Ops = append(c.Ops, Op{K: "Resume", ID: 1, S: s1, Mode: "stall", U: 1})
+	probes()
+	switch r.Intn(3) {
+	case 0:
+		c.Ops = append(c.Ops, Op{K: "Del", ID: 1})
+	case 1:
+		c.Ops = append(c.Ops, Op{K: "DelAll"})
+	default:
+		c.Ops = append(c.Ops, Op{K: "Add", ID: 1, S: r.Range(1, nStreams), Mode: "up", U: 3})
+	}
+	probes()
+	return c
+}
+
 // ---------------------------------------------------------------- the property's own oracle
 func (o Op) String() string {
 	switch o.K {
@@ -680,6 +831,10 @@ func (o Op) String() string {
 		return "Del " + idName(o.ID)
 	case "B":
 		return "B " + streamNames[o.S]
+	case "Stall":
+		return fmt.Sprintf("Stall u%d (stops reading for %v, %d frames of %d KB on %s)", o.U, stallFor, floodFrames, floodSize/1024, streamNames[o.S])
+	case "Resume":
+		return fmt.Sprintf("Resume u%d", o.U)
 	}
 	return o.K
 }
@@ -748,12 +903,17 @@ func oracle(c Case, idx int, res *lib.Result) {
 		}
 		// what is registered with the messages hub: one client per current rule, nothing else
 		seenM := map[int]int{}
-		for _, u := range ob.Members {
+		for _, us := range ob.Members {
+			u, ms := us/10, us%10
 			seenM[u]++
 			id := owner[u]
-			if cu, ok := curr[id]; !ok || cu.u != u || seenM[u] > 1 {
+			cu, ok := curr[id]
+			if !ok || cu.u != u || seenM[u] > 1 {
 				bad("superseded-client-still-registered", "after-"+last,
 					fmt.Sprintf("op %d (%s): a client for u%d (made for %s) is still registered with the messages hub although its rule was replaced or deleted; history: %s", i, o.String(), u, idName(id), hist(i)))
+			} else if cu.s != ms {
+				bad("client-registered-for-old-stream", "after-"+last,
+					fmt.Sprintf("op %d (%s): the client of rule %s -> u%d is registered with the messages hub for %s, its latest rule names %s; history: %s", i, o.String(), idName(id), u, streamNames[ms%4], streamNames[cu.s], hist(i)))
 			}
 		}
 		for id, cu := range curr {
@@ -793,7 +953,7 @@ func oracle(c Case, idx int, res *lib.Result) {
 					fmt.Sprintf("op %d (%s): rule %s -> u%d (%s) has no open connection after 2 s; history: %s", i, o.String(), idName(id), cu.u, cu.mode, hist(i)))
 			}
 		}
-		if o.K == "B" {
+		if o.K == "B" || o.K == "Stall" {
 			got := map[int]bool{}
 			for _, u := range ob.Recv {
 				got[u] = true
@@ -850,6 +1010,10 @@ func main() {
 		lib.ReadReplayCase(a.Replay, &c)
 		cases = []Case{c}
 	} else {
+		// the slow scenarios first, so that they overlap with the rest
+		for i := 0; i < a.Pick(6, 40); i++ {
+			cases = append(cases, genStall(rng.Fork()))
+		}
 		n := a.Pick(800, 8000)
 		for i := 0; i < n; i++ {
 			r := rng.Fork()
@@ -903,6 +1067,7 @@ func main() {
 			res.Count("outcome:connections-did-not-settle")
 		}
 		have := map[int]bool{}
+		prev := map[int][2]int{}
 		for k, o := range c.Ops {
 			res.Count("op:" + o.K)
 			if o.K == "Add" {
@@ -916,11 +1081,22 @@ func main() {
 					res.Count("add:reserved-id")
 				case have[o.ID]:
 					res.Count("add:replaces-live-rule")
+					switch pv := prev[o.ID]; {
+					case pv[0] == o.S && pv[1] == o.U:
+						res.Count("replace:same-rule-again")
+					case pv[1] == o.U:
+						res.Count("replace:stream-only")
+					case pv[0] == o.S:
+						res.Count("replace:destination-only")
+					default:
+						res.Count("replace:both")
+					}
 				default:
 					res.Count("add:new-id")
 				}
 				if o.ID != 0 {
 					have[o.ID] = true
+					prev[o.ID] = [2]int{o.S, o.U}
 				}
 			}
 			if o.K == "Del" {
